@@ -782,6 +782,7 @@ theorem lInv_step (H : IdFn) {N : Numbering} {g : Graph} {ds : DS} (hi : LInv N 
           split
           · exact lInv_keep hfin (keep_sendPolicyUpdate H _ _)
           · exact hfin
+  | passthru c key v => exact lInv_ds (lInv_keep hi (keep_emit g _)) rfl rfl rfl
   | other => exact hi
 
 
